@@ -3,8 +3,10 @@
 //! * `Rec<C, false>` — implements only `draw_iter`, **inherits** the trait defaults of
 //!   `fill_contiguous`, `fill_solid` and `clear` (what MockDisplay and most simple drivers are).
 //! * `Rec<C, true>`  — native `fill_contiguous` (row-major zip of area and stream, stops at the
-//!   shorter), `fill_solid`, `clear`, each with its documented meaning.  With `drain` set it pulls
-//!   the colour iterator until `None` (budgeted) and records how many colours it got.
+//!   shorter), `fill_solid`, `clear`, each with its documented meaning; its `draw_iter` consumes the pixels by
+//!   internal iteration (`for_each`).  With `drain` set `fill_contiguous` takes the whole colour stream by internal
+//!   iteration (budgeted) and records how many colours it got; with `skip` set it clips to its box and jumps over
+//!   the invisible colours with `nth`.
 //! Both record an unbounded pixel map (points outside the reported bounding box are recorded, not
 //! dropped), optionally a call log, and can fail the k-th call (fault enumeration).
 
@@ -213,6 +215,32 @@ impl<C: PixelColor> DrawTarget for Rec<C, true> {
             }
             return Ok(());
         }
+        if self.drain {
+            // a target that takes the whole stream by internal iteration (`for_each`, i.e. the stream's `fold`): colour i
+            // belongs to the i-th row-major point of the area; a stream that does not end within the budget cannot be
+            // consumed this way (panic in the harness frame, reported for the case)
+            let area_n = area.size.width as u64 * area.size.height as u64;
+            let mut pts = area.points();
+            let map = &mut self.map;
+            let log = self.log_calls;
+            it.for_each(|c| {
+                if let Some(p) = pts.next() {
+                    map.insert((p.x, p.y), c);
+                    if log {
+                        got.push(c);
+                    }
+                }
+                n += 1;
+                if n > DRAIN_BUDGET as u64 {
+                    panic!("harness: colour stream longer than {} colours handed to a draining target (area of {} pixels)", DRAIN_BUDGET, area_n);
+                }
+            });
+            self.drained.push((area_n, n));
+            if self.log_calls {
+                self.log.push(Call::FillContiguous { area: rt(area), colors: got });
+            }
+            return Ok(());
+        }
         for p in area.points() {
             match it.next() {
                 Some(c) => {
@@ -224,20 +252,6 @@ impl<C: PixelColor> DrawTarget for Rec<C, true> {
                 }
                 None => break,
             }
-        }
-        if self.drain {
-            let mut extra = 0u64;
-            // only continue pulling when the area was exhausted (otherwise the stream already ended)
-            let area_n = area.size.width as u64 * area.size.height as u64;
-            if n == area_n {
-                while extra < DRAIN_BUDGET as u64 {
-                    if it.next().is_none() {
-                        break;
-                    }
-                    extra += 1;
-                }
-            }
-            self.drained.push((area_n, n + extra));
         }
         if self.log_calls {
             self.log.push(Call::FillContiguous { area: rt(area), colors: got });
